@@ -301,3 +301,94 @@ def borrow_root(body, defs, operand, max_depth=12):
         fields = [p[3] for p in pl.proj if p[0] == 'f'] + fields
         loc = pl.local
     return loc, net, fields
+
+
+class Flow:
+    __slots__ = ("kind", "node", "path", "via", "local")
+
+    def __init__(self, kind, node, path, via, local=None):
+        self.kind = kind
+        self.node = node
+        self.path = path
+        self.via = via
+        self.local = local
+
+    def field_path(self):
+        return [p[3] for p in self.path if p[0] == 'f']
+
+    def fields(self):
+        from facts import canon
+        return [(canon(p[2]), p[3]) for p in self.path if p[0] == 'f']
+
+    def __repr__(self):
+        return "Flow(%s via %s path %s)" % (self.kind, [v.rsplit('::', 1)[-1] for v in self.via], ".".join(self.field_path()))
+
+
+def flow_back(body, defs, operand, max_depth=60, all_args=False):
+    """Like origins(), but *every* call is passed through its receiver/first argument (all arguments
+    when all_args) and the callees passed on the way are recorded in `via`. Used for "does this text
+    derive from source S, and did it pass through quoting function Q" questions."""
+    out = []
+    seen = set()
+
+    def go_place(place, path, via, depth):
+        go_local(place.local, tuple(place.proj) + tuple(path), via, depth)
+
+    def go_local(local, path, via, depth):
+        key = (local, path, via)
+        if key in seen or depth > max_depth:
+            return
+        seen.add(key)
+        ds = defs.of(local)
+        if not ds:
+            out.append(Flow('arg' if 1 <= local <= body.argc else 'unknown', local, path, via, local))
+            return
+        for kind, bb, idx, node in ds:
+            if kind == 'assign':
+                rv = node.rv
+                if rv.kind in ('use', 'cast', 'repeat'):
+                    go_op(rv.ops[0], path, via, depth + 1)
+                elif rv.kind in ('ref', 'rawptr'):
+                    p2 = path[1:] if path and path[0] == ('*',) else path
+                    go_place(rv.place, p2, via, depth + 1)
+                elif rv.kind == 'agg':
+                    out.append(Flow('agg', rv, path, via, local))
+                    p2 = path
+                    while p2 and p2[0][0] == 'd':
+                        p2 = p2[1:]
+                    if p2 and p2[0][0] == 'f' and p2[0][1] < len(rv.ops):
+                        # projection-sensitive: only the selected element flows
+                        go_op(rv.ops[p2[0][1]], p2[1:], via, depth + 1)
+                    else:
+                        for o in rv.ops:
+                            go_op(o, path, via, depth + 1)
+                elif rv.kind in ('un', 'bin'):
+                    for o in rv.ops:
+                        go_op(o, path, via, depth + 1)
+                elif rv.kind == 'discr':
+                    go_place(rv.place, path, via, depth + 1)
+                else:
+                    out.append(Flow('op', rv, path, via, local))
+            elif kind == 'call':
+                t = node
+                c = t.best_callee() or t.callee or "?"
+                v2 = via + (c,)
+                out.append(Flow('call', t, path, v2, local))
+                args = t.args if all_args else t.args[:1]
+                for a in args:
+                    go_op(a, path, v2, depth + 1)
+            else:
+                out.append(Flow('unknown', local, path, via, local))
+
+    def go_op(op, path, via, depth):
+        if op.place is not None:
+            go_place(op.place, path, via, depth)
+        elif op.const is not None:
+            out.append(Flow('const', op.const, path, via))
+
+    x = operand_or = operand
+    if hasattr(x, "kind") and hasattr(x, "place") and hasattr(x, "const"):
+        go_op(x, (), (), 0)
+    else:
+        go_place(x, (), (), 0)
+    return out
